@@ -69,9 +69,6 @@ package migrate
 
 // ---------------------------------------------------------------------------------------
 
-//@ func (f HashFile) SumByName(n string) (s string, err error)
-//@   trusted
-
 //@ func (e *Executor) fileStmts(f File) (stmts []*Stmt, err error)
 //@   trusted
 //@   pure
@@ -254,7 +251,7 @@ package migrate
 //@   trusted
 //@   effect GvcReadErr = err; if err == nil { GvcStoredSum = hf }
 //@ extern func (d Dir) Checksum() (h HashFile, err error)
-//@   effect GvcChecksumErr = err; GvcChecksumCalls++; if err == nil { GvcComputedSum = h }
+//@   effect GvcChecksumErr = err; GvcChecksumCalls++; GvcChecksumAt = GvcDirWrites; if err == nil { GvcComputedSum = h }
 
 //@ func (f HashFile) Sum() (s string)
 //@   trusted
@@ -269,3 +266,49 @@ package migrate
 //@           2 <= err.(*ChecksumError).Line && err.(*ChecksumError).Line <= len(GvcStoredSum)+2
 //@   loop 1 invariant 0 <= loopk && loopk <= len(ac) && loopk <= len(ex)
 //@   loop 1 invariant (forall j int :: 0 <= j && j < loopk ==> ex[j] == ac[j])
+
+// Writers re-hash: the last directory effect of a successful writer is atlas.sum, holding the
+// checksum computed after every other write.
+//@ ghost var GvcDirWrites int
+//@ ghost var GvcLastWrite string
+//@ ghost var GvcLastData []byte
+//@ ghost var GvcChecksumAt int
+
+//@ extern func (d Dir) WriteFile(name string, b []byte) (err error)
+//@   effect GvcDirWrites++; GvcLastWrite = name; GvcLastData = b
+//@ extern func (d CheckpointDir) WriteCheckpoint(name, tag string, b []byte) (err error)
+//@   effect GvcDirWrites++; GvcLastWrite = name; GvcLastData = b
+//@ extern func (f Formatter) Format(p *Plan) (fs []File, err error)
+//@   ensures err == nil ==> (forall i int :: 0 <= i && i < len(fs) ==> fs[i] != nil)
+//@ extern func (f File) Bytes() (b []byte)
+//@   pure
+//@ func (f HashFile) MarshalText() (b []byte, err error)
+//@   trusted
+//@   pure
+
+//@ func (hf HashFile) SumByName(n string) (s string, err error)
+//@   ensures found: err == nil ==> (exists i int :: 0 <= i && i < len(hf) && hf[i].N == n && hf[i].H == s)
+//@   ensures missing: err != nil ==> (forall i int :: 0 <= i && i < len(hf) ==> hf[i].N != n)
+//@   loop 1 invariant 0 <= loopk && loopk <= len(hf)
+//@   loop 1 invariant (forall j int :: 0 <= j && j < loopk ==> hf[j].N != n)
+
+//@ spec func gvcSumWritten(dir Dir) bool {
+//@ spec 	b, _ := GvcComputedSum.MarshalText()
+//@ spec 	return GvcLastWrite == HashFileName && GvcChecksumAt == GvcDirWrites-1 && GvcBase(GvcLastData) == GvcBase(b) && len(GvcLastData) == len(b)
+//@ spec }
+
+//@ func (p *Planner) writeSum() (err error)
+//@   requires p != nil && (p.sum ==> p.dir != nil)
+//@   modifies GvcDirWrites, GvcLastWrite, GvcLastData, GvcChecksumAt, GvcComputedSum, GvcChecksumErr, GvcChecksumCalls
+//@   ensures sum-written-last: err == nil && p.sum ==> gvcSumWritten(p.dir)
+//@   ensures disabled-writes-nothing: !p.sum ==> err == nil && GvcDirWrites == old(GvcDirWrites)
+
+//@ func (p *Planner) WritePlan(plan *Plan) (err error)
+//@   requires p != nil && p.dir != nil && p.fmt != nil
+//@   modifies GvcDirWrites, GvcLastWrite, GvcLastData, GvcChecksumAt, GvcComputedSum, GvcChecksumErr, GvcChecksumCalls
+//@   ensures rehash-after-all-writes: err == nil && p.sum ==> gvcSumWritten(p.dir)
+
+//@ func (p *Planner) WriteCheckpoint(plan *Plan, tag string) (err error)
+//@   requires p != nil && p.dir != nil && p.fmt != nil
+//@   modifies GvcDirWrites, GvcLastWrite, GvcLastData, GvcChecksumAt, GvcComputedSum, GvcChecksumErr, GvcChecksumCalls
+//@   ensures rehash-after-all-writes: err == nil && p.sum ==> gvcSumWritten(p.dir)
